@@ -143,10 +143,9 @@ def replay(scn):
         a = A.gamma(a_abs, codec, [kinds[d] for d in a_abs["dims"]])
         dt = a_abs["dtype"]
         if zeros:
-            flat = a.values.reshape(-1)
             for k, c in enumerate(a_abs["cells"]):
                 if c >= 0 and c % 2 == 0:
-                    flat[k] = _venc(c, dt, True)
+                    a.values[np.unravel_index(k, a.values.shape)] = _venc(c, dt, True)     # (row-major cell k, whatever the memory layout)
         before = A.snapshot(a)
         forms = (0, 1) if i["spec"]["k"] == "tuple" else (0,)
         for func in FUNCS:
